@@ -111,7 +111,7 @@ func (s Stream) Each(emit func(c Case)) {
 	}
 
 	// 3. random programs
-	nrand := 9000
+	nrand := 7000
 	if thorough {
 		nrand = 300000
 	}
@@ -220,6 +220,24 @@ func Main(prop string) {
 		}
 		out.Case(input, obs+"\t"+esc(c.Src), c.Twin == "" && c.P.Size() >= 3, tags...)
 	})
+	// the tie of the Gallina generator model (coq/Model/GenF0.v) to the real generator: same
+	// instruction listing for F0 programs (exhaustive small shapes come from the random stream's size)
+	if prop == "C02" {
+		rng := lib.NewRng(a.Seed ^ 0xF0F0)
+		nbc := 1500
+		if a.Tier == "thorough" {
+			nbc = 40000
+		}
+		lr := NewRunner(budget)
+		for i := 0; i < nbc; i++ {
+			p := &Program{Forms: []*Node{GenF0(rng, 1+rng.Intn(5))}}
+			if i%3 == 0 {
+				p.Forms = append(p.Forms, GenF0(rng, 1+rng.Intn(3)))
+			}
+			src := p.Source(Style{})
+			out.Case("bytecode=1 "+p.Prefix(), lr.Listing(src)+"\t"+esc(src), p.Size() >= 3, "stream:bytecode-listing")
+		}
+	}
 	out.Extra["interpreters_created"] = r.Recycled
 	out.Close(a.Stats)
 }
